@@ -128,7 +128,11 @@ def _resolve_target_set_from_expr(
             return None
 
     if scope_chain is None:
-        scope_chain = scopes_for_owner(target)
+        try:
+            scope_chain = scopes_for_owner(target)
+        except ResolutionError:
+            # An unresolvable `with` environment must not block structural edits.
+            scope_chain = ()
 
     match target:
         case Assertion():
@@ -152,8 +156,13 @@ def _resolve_target_set_from_expr(
             except ValueError as exc:
                 raise ValueError("Unexpected function output type") from exc
         case WithStatement():
-            body_scopes = scopes_for_owner(target) or scope_chain
-            attach_resolution_context(target.body, owner=target)
+            try:
+                body_scopes = scopes_for_owner(target) or scope_chain
+                attach_resolution_context(target.body, owner=target)
+            except ResolutionError:
+                # The environment is opaque (function argument, import, ...):
+                # the body is still the edit target.
+                body_scopes = scope_chain
             return _resolve_target_set_from_expr(
                 target.body,
                 scope_chain=body_scopes,
